@@ -86,3 +86,24 @@ type FixResult struct {
 	// this.
 	Contents string
 }
+
+// byteIndexOfColumn returns the index in line of the first byte of the character at the given
+// 1-based column. Location columns are counted in characters (as done by the parser), while
+// strings are indexed by byte, so the two differ whenever multi-byte characters precede the column.
+func byteIndexOfColumn(line string, column int) (int, bool) {
+	if column < 1 {
+		return 0, false
+	}
+
+	n := 0
+
+	for i := range line {
+		n++
+
+		if n == column {
+			return i, true
+		}
+	}
+
+	return 0, false
+}
